@@ -30,7 +30,7 @@ MODULES = {
     "fproxy": "futures/proxy.py", "fnocancel": "futures/nocancel.py", "fapply": "futures/apply.py", "fmap": "futures/map.py",
     "fsequence": "futures/sequence.py", "ftimeout": "futures/timeout.py", "fcheck": "futures/check.py",
     "bind": "bind.py", "wrap": "wrap.py", "wrapped": "wrapped.py", "executors": "executors.py", "sync": "sync.py",
-    "logwrap": "logwrap.py", "metrics_null": "metrics/null.py", "futures_init": "futures/__init__.py",
+    "logwrap": "logwrap.py", "metrics_null": "metrics/null.py", "futures_init": "futures/__init__.py", "asyncio": "asyncio.py",
 }
 
 # property -> modules whose code its machines, kernels, families and monitors represent (Props/Cxx_src.v, written by
@@ -50,7 +50,7 @@ PROP_MODULES = {
     "C08": ["poll", "common", "helpers", "event"] + _EXEC,
     "C09": ["timeout", "map", "common", "ftimeout", "helpers", "event"] + _EXEC,
     "C10": ["cos", "helpers"] + _EXEC,
-    "C11": ["helpers", "retry", "poll", "throttle", "timeout", "map", "flat_map", "cos", "sync", "event", "common"] + _EXEC,
+    "C11": ["helpers", "retry", "poll", "throttle", "timeout", "map", "flat_map", "cos", "sync", "event", "common", "asyncio", "wrapped"] + _EXEC,
     "C12": ["event", "retry", "poll", "throttle", "timeout", "cos", "common", "map", "flat_map", "helpers"] + _EXEC,
     "C13": ["map", "flat_map", "common", "fmap", "futures_init"] + _EXEC,
     "C14": ["fbool", "fbase", "fcheck", "common", "futures_init"] + _EXEC,
@@ -59,7 +59,7 @@ PROP_MODULES = {
     "C17": ["map", "common", "fproxy", "fnocancel", "futures_init"] + _EXEC,
     "C18": ["common", "map", "flat_map", "poll", "retry", "throttle", "fbool", "fzip", "timeout", "cos", "helpers", "fbase"] + _EXEC,
     "C19": ["bind", "wrap", "wrapped", "executors", "flat_map", "map"] + _EXEC,
-    "C20": ["metrics", "retry", "throttle", "metrics_prom", "poll", "timeout", "map", "flat_map", "cos", "sync", "common", "helpers", "wrapped"] + _EXEC,
+    "C20": ["metrics", "retry", "throttle", "metrics_prom", "poll", "timeout", "map", "flat_map", "cos", "sync", "common", "helpers", "wrapped", "asyncio"] + _EXEC,
 }
 
 
